@@ -376,6 +376,21 @@ pub fn profile(name: &str) -> Option<Profile> {
             blob_pct: 0,
             tiny_targets: false,
         },
+        // thousands of tiny keys in few tables: the only way a whole tree gets SEVERAL partitions of a partitioned
+        // filter / index (the partition size is fixed at 4 KiB at tree level)
+        "wide" => Profile {
+            name: "wide",
+            weights: w(&[(Batch, 40), (Put, 6), (Del, 6), (Rotate, 2), (Flush, 12), (Leveled, 4), (Major, 6), (SnapOpen, 1), (SnapRelease, 1), (Reopen, 2)]),
+            n_g: 3600,
+            n_w: 0,
+            n_d: 0,
+            min_ops: 8,
+            max_ops: 22,
+            snap_slots: 1,
+            filter_pct: 0,
+            blob_pct: 0,
+            tiny_targets: false,
+        },
         _ => return None,
     })
 }
@@ -466,14 +481,14 @@ pub fn gen_history(rng: &mut Rng, p: &Profile, uni: &Universe, thresholds: &[u32
                 if gd.is_empty() {
                     continue;
                 }
-                let cnt = if p.name == "dense" { rng.range(100, 500) as usize } else { rng.range(2, 6) as usize };
-                let mut ks: Vec<usize> = (0..cnt).map(|_| if p.name == "dense" { *rng.pick(&gd) } else { pick_gd(rng) }).collect();
+                let cnt = if p.name == "dense" { rng.range(100, 500) as usize } else if p.name == "wide" { rng.range(600, 3400) as usize } else { rng.range(2, 6) as usize };
+                let mut ks: Vec<usize> = (0..cnt).map(|_| if p.name == "dense" || p.name == "wide" { *rng.pick(&gd) } else { pick_gd(rng) }).collect();
                 ks.sort_unstable();
                 ks.dedup();
                 Op::Batch {
                     items: ks
                         .into_iter()
-                        .map(|k| (k, if rng.chance(1, 4) { None } else if p.name == "dense" { Some(rng.range(0, 9) as usize) } else { Some(value_len(rng, thresholds)) }))
+                        .map(|k| (k, if rng.chance(1, 4) { None } else if p.name == "dense" || p.name == "wide" { Some(rng.range(0, 9) as usize) } else { Some(value_len(rng, thresholds)) }))
                         .collect(),
                 }
             }
